@@ -65,7 +65,8 @@ func errNonNilByConstruction(fn *ssa.Function, v ssa.Value, n sx.Node) (bool, st
 	ok := sx.All(os, func(o sx.Origin) bool {
 		switch o.Kind {
 		case sx.KGlobal:
-			return o.V.Name() == "streamDownErr"
+			g, _ := o.V.(*ssa.Global)
+			return globalErrNonNil(g)
 		case sx.KCall:
 			c := o.V.(*ssa.Call)
 			if calleeIs(&c.Call, "fmt.Errorf", "errors.New", "google.golang.org/grpc/status.Error", "google.golang.org/grpc/status.Errorf") {
@@ -393,43 +394,76 @@ func c07E4(l *core.Ledger, r *rt) {
 	if !bad {
 		l.OK("C07-E4", key, rc.Pos(), "stream error ⇒ every pending call is answered with the stream-down error before the reader continues")
 	}
-	// the error's code
-	okCode := false
-	if init := r.spkg.Func("init"); init != nil {
-		sx.AllInstrs(init, func(_ sx.Node, in ssa.Instruction) {
-			st, ok := in.(*ssa.Store)
-			if !ok {
-				return
-			}
-			g, ok := st.Addr.(*ssa.Global)
-			if !ok || g.Name() != "streamDownErr" {
-				return
-			}
-			c, ok := st.Val.(*ssa.Call)
-			if !ok || !calleeIs(&c.Call, "google.golang.org/grpc/status.Error", "google.golang.org/grpc/status.Errorf") {
-				return
-			}
-			if k, isC := c.Call.Args[0].(*ssa.Const); isC && k.Value != nil {
-				// codes.Unavailable == 14
-				if v, exact := constant.Uint64Val(k.Value); exact && v == 14 {
-					okCode = true
-				}
-			}
-		})
+	// the error's code: what the cancelling routine sends must be Unavailable by construction.
+	// Only C07 speaks about the kind of error; the re-runs of this rule under other
+	// properties (waiters are failed at all) do not include this clause.
+	if l.Remap != nil {
+		return
 	}
-	l.Check(okCode, "C07-E4", "gorums.streamDownErr", token.NoPos, "status.Error(codes.Unavailable, …)", "the stream-down error is not built with code Unavailable")
-	// only initialised, never reassigned
-	var writers []string
-	for _, f := range allFuncs(l.Prog, r.pkg) {
-		sx.AllInstrs(f, func(_ sx.Node, in ssa.Instruction) {
-			if st, ok := in.(*ssa.Store); ok {
-				if g, ok := st.Addr.(*ssa.Global); ok && g.Name() == "streamDownErr" && f.Name() != "init" {
-					writers = append(writers, fnKey(f))
-				}
+	okCode, nDeliv := true, 0
+	why := ""
+	for _, d := range rm.deliveries {
+		if !d.viaLoop || cancellers[d.fn] != "ok" {
+			continue
+		}
+		lit, ok := structLiteral(d.val)
+		if !ok || lit["err"] == nil {
+			continue
+		}
+		nDeliv++
+		for _, o := range sx.Origins(lit["err"]) {
+			code, known := errCodeOfOrigin(o)
+			if !known || code != 14 { // codes.Unavailable == 14
+				okCode = false
+				why = o.String()
 			}
-		})
+		}
 	}
-	l.Check(len(writers) == 0, "C07-E4", "who-may-write/streamDownErr", token.NoPos, "never reassigned", fmt.Sprintf("streamDownErr reassigned by %v", writers))
+	if nDeliv == 0 {
+		okCode = false
+	}
+	l.Check(okCode, "C07-E4", "gorums.streamDownErr", token.NoPos, "the error sent to every waiter is status.Error(codes.Unavailable, …) by construction (a package-level value initialised once, or built in place)", "the stream-down error is not built with code Unavailable: "+why)
+}
+
+// errCodeOfOrigin returns the constant status code an error value is built
+// with: status.Error(f)(code, …) in place, or a package-level variable that is
+// initialised once with such a call and never written again.
+func errCodeOfOrigin(o sx.Origin) (int64, bool) {
+	codeOf := func(c *ssa.Call) (int64, bool) {
+		if !calleeIs(&c.Call, "google.golang.org/grpc/status.Error", "google.golang.org/grpc/status.Errorf") {
+			return 0, false
+		}
+		k, isC := c.Call.Args[0].(*ssa.Const)
+		if !isC || k.Value == nil {
+			return 0, false
+		}
+		v, exact := constant.Int64Val(constant.ToInt(k.Value))
+		return v, exact
+	}
+	switch o.Kind {
+	case sx.KCall:
+		if c, ok := o.V.(*ssa.Call); ok {
+			return codeOf(c)
+		}
+	case sx.KGlobal:
+		g, _ := o.V.(*ssa.Global)
+		if g == nil || !globalErrNonNil(g) {
+			return 0, false
+		}
+		if init := g.Pkg.Func("init"); init != nil {
+			var code int64
+			found := false
+			sx.AllInstrs(init, func(_ sx.Node, in ssa.Instruction) {
+				if st, ok := in.(*ssa.Store); ok && st.Addr == ssa.Value(g) {
+					if c, ok := st.Val.(*ssa.Call); ok {
+						code, found = codeOf(c)
+					}
+				}
+			})
+			return code, found
+		}
+	}
+	return 0, false
 }
 
 func rangesRouterMap(rm *routerModel, f *ssa.Function) bool {
